@@ -506,6 +506,46 @@ def r6(ctx, r):
                  okdesc="Transport::%s throws on the I/O thread before calling the engine" % name)
 
 
+    # the guards compare with getIoThreadId() = _loop.get_id(): the thread member must keep identifying the I/O thread for as long
+    # as that thread can run callbacks — it is (re)assigned only by start(), given up only by join()/detach(), never moved away
+    n_uses = 0
+    for cls in (TCP, UDP):
+        fld = cls + "::_loop"
+        gid = [g for g in fb.funcs(cls + "::getIoThreadId") if g.ok]
+        r.instance()
+        r.expect(bool(gid) and any(x.get("k") == "mcall" and last(x.get("callee", "")) == "get_id" and field_of(x.get("obj")) == fld for x in gid[0].nodes.values()), gid[0] if gid else cls, None,
+                 "%s: I/O thread id source" % last(cls), "%s::getIoThreadId no longer returns _loop.get_id()" % last(cls), okdesc="%s::getIoThreadId = _loop.get_id()" % last(cls))
+        for g in fb.in_file(FILES[cls]):
+            if not g.ok:
+                continue
+            for n in g.nodes.values():
+                if n.get("k") != "member" or n.get("n") != fld:
+                    continue
+                n_uses += 1
+                pid = g.parent.get(n["id"])
+                par = g.nodes.get(pid, {}) if pid is not None else {}
+                # look through implicit casts
+                while par.get("k") == "cast" and g.parent.get(par["id"]) is not None:
+                    par = g.nodes[g.parent[par["id"]]]
+                owner = g.enclosing.name if g.kind == "lambda" and g.enclosing is not None else g.name
+                if par.get("k") == "mcall" and par.get("obj") is not None and any(x is n for x in walk(par["obj"])):
+                    m = last(par.get("callee", ""))
+                    ok = m in ("joinable", "join", "get_id", "native_handle") or (m == "detach" and owner.endswith("detachForTermination"))
+                    what = "_loop.%s()" % m
+                elif par.get("k") == "opcall" and par.get("op") == "=" and par["args"][0] is n:
+                    ok = owner.endswith("::start")
+                    what = "assignment to _loop"
+                else:
+                    ok = False
+                    what = "`%s`" % show(par)[:50]
+                r.instance()
+                r.expect(ok, g, g.elem_for(n), "%s: I/O thread handle given away" % last(cls), "%s uses the I/O thread handle as %s: once _loop no longer holds the running thread (moved to a local, swapped, reset) "
+                         "getIoThreadId() returns the null id while that thread still runs callbacks — every I/O-thread guard (connectSync, sendSync, receiveSync, setReadMode, self-destruction) lets a blocking call "
+                         "through on the I/O thread itself" % (short(g.name), what), okdesc="%s: %s" % (short(g.name), what))
+    if n_uses < 8:
+        raise AnalysisBroken("only %d uses of the engines' _loop members found" % n_uses)
+
+
 # ------------------------------------------------------------------ R7 (typestate)
 
 def may_free_summary(ctx, cls):
